@@ -17,11 +17,13 @@ PROP = "C05"
 LEVEL = "exploration"
 RULE = (
     "random builder histories: 1-6 compartments named from a tie-break-stressing pool, random digraph (edge "
-    "density 0.15-0.8, 0-2 output flows), rates = positive symbol / quotient / 2*K / K1+K2 / VM/(KM+A_src(t)), "
+    "density 0.15-0.8, 0-2 output flows), rates = positive symbol / integer / quotient / 2*K / K1+K2 / VM/(KM+A_src(t)) / K*A_src(t) / "
+    "CL/V+VM/(KM+A_src(t)), "
     "0-3 doses (Bolus, Infusion by rate or duration, admids 1-3), zero-order inputs, lag, F, followed by 0-10 "
     "random edits (add/remove compartment, add/overwrite/remove flow, move/set/add/remove dose, set lag/F/input, "
-    "snapshot, rebuild builder from system); strata main 80% (final system has a dose and an output flow), "
-    "nodose 11%, nooutput 9%. Distinct by the printed op list; non-trivial if the final system has >=2 "
+    "snapshot, rebuild builder from system); strata main 76% (final system has a dose and an output flow, no "
+    "construct with a listed finding), nodose 9%, nooutput 8%, second_order 7% (main plus exactly one flow whose "
+    "rate is KON*A_other(t)/VC). Distinct by the printed op list; non-trivial if the final system has >=2 "
     "compartments, >=2 flows and the history has >=1 edit after construction"
 )
 ASSUMPTIONS = [
@@ -42,9 +44,10 @@ REQUIRED_MONITORS = ["lengths", "lhs", "rhs_vs_shadow", "matrix_entries", "matri
                      "mass_balance", "tcs_vector_field", "roundtrip_eq", "roundtrip_json_eq", "roundtrip_vs_shadow",
                      "subs", "doses_vs_shadow", "lag_vs_shadow", "F_vs_shadow", "get_flow", "outflows", "inflows",
                      "dosing_compartments", "snapshot_unchanged", "stratum:nodose", "stratum:upstream_or_disconnected",
-                     "stratum:nonlinear_rate", "stratum:move_dose"]
+                     "stratum:nonlinear_rate", "stratum:move_dose", "stratum:second_order", "stratum:nooutput"]
 
 KEY_EQ = "C05/eq-raises-without-dose-or-output"
+KEY_TCS_SO = "C05/tcs-second-order-rate"
 NPOINTS = 8
 TOL = 1e-9
 
@@ -124,7 +127,16 @@ def to_pharmpy(spec, form):
         return Expr.integer(spec[1]) * Expr.symbol(spec[2])
     if k == "sum":
         return Expr.symbol(spec[1]) + Expr.symbol(spec[2])
-    return Expr.symbol(spec[1]) / (Expr.symbol(spec[2]) + Expr.function("A_" + spec[3], "t"))
+    A = lambda nm: Expr.function("A_" + nm, "t")  # noqa: E731
+    if k == "mm":
+        return Expr.symbol(spec[1]) / (Expr.symbol(spec[2]) + A(spec[3]))
+    if k == "sq":
+        return Expr.symbol(spec[1]) * A(spec[2])
+    if k == "mix":
+        return Expr.symbol(spec[1]) / Expr.symbol(spec[2]) + Expr.symbol(spec[3]) / (Expr.symbol(spec[4]) + A(spec[5]))
+    if k == "so":
+        return Expr.symbol(spec[1]) * A(spec[3]) / Expr.symbol(spec[2])
+    raise ValueError(spec)
 
 
 def mk_dose(d):
@@ -511,45 +523,69 @@ def check_accessors(c, cs, sh, pts, handles, label, text):
         c.violate(None, f"[{label}] dosing_compartments = {got}; compartments with doses: {dosed}", {"ops": text})
 
 
-def check_tcs(c, cs, sh, pts, label, text):
-    """to_compartmental_system(names, eqs) must have the same vector field (rhs including inputs)."""
+def tcs_field(cs, sh, pts):
+    """None if to_compartmental_system(names, cs.eqs) has the vector field of the shadow, else (msg, detail)."""
     from pharmpy.model import to_compartmental_system
     from vp.ir_eval import EvalError, Unbound, ev
 
-    if not sh.comps:
-        return
-    try:
-        amounts = list(cs.amounts)
-        names = list(cs.compartment_names)
-        fmap = {a: nm for a, nm in zip(amounts, names)}
-        eqs = [e._sympy_() for e in cs.eqs]
-    except Exception:
-        return  # already reported by check_structure
+    amounts = list(cs.amounts)
+    names = list(cs.compartment_names)
+    fmap = {a: nm for a, nm in zip(amounts, names)}
+    eqs = [e._sympy_() for e in cs.eqs]
     try:
         cs3 = to_compartmental_system(fmap, eqs)
         names3 = list(cs3.compartment_names)
         eqs3 = list(cs3.eqs)
     except Exception as e:
-        c.violate(None, f"[{label}] to_compartmental_system(names, cs.eqs) raised {type(e).__name__}: {e}",
-                  {"ops": text, "eqs": [str(e_) for e_ in eqs], "traceback": traceback.format_exc()[-1500:]})
-        return
+        return (f"to_compartmental_system(names, cs.eqs) raised {type(e).__name__}: {e}",
+                {"eqs": [str(e_) for e_ in eqs], "traceback": traceback.format_exc()[-1500:]}, 0)
     if sorted(names3) != sorted(names):
-        c.violate(None, f"[{label}] to_compartmental_system has compartments {names3}, the equations were for {names}", {"ops": text})
-        return
+        return (f"to_compartmental_system has compartments {names3}, the equations were for {names}", {}, 0)
+    nhit = 0
     for env_cs, env_sh, funcs in pts:
         for i, nm in enumerate(names3):
             try:
                 got = ev(eqs3[i].rhs, env_cs, funcs)
             except (EvalError, Unbound) as e:
-                c.violate(None, f"[{label}] to_compartmental_system equation {eqs3[i]} cannot be evaluated: {e}", {"ops": text})
-                return
+                return (f"to_compartmental_system equation {eqs3[i]} cannot be evaluated: {e}", {}, nhit)
             e, scale = sh_net(sh, nm, env_sh, funcs)
-            c.hit("tcs_vector_field")
+            nhit += 1
             if not close(got, e, scale):
-                c.violate(None, f"[{label}] to_compartmental_system(names, eqs): d/dt A_{nm} = {eqs3[i].rhs} evaluates to {got!r}, "
-                                f"the original system has {e!r}",
-                          {"ops": text, "eqs": [str(x) for x in eqs], "eqs_back": [str(x) for x in eqs3]})
-                return
+                return (f"to_compartmental_system(names, eqs): d/dt A_{nm} = {eqs3[i].rhs} evaluates to {got!r}, "
+                        f"the original system has {e!r}",
+                        {"eqs": [str(x) for x in eqs], "eqs_back": [str(x) for x in eqs3]}, nhit)
+    return (None, None, nhit)
+
+
+def check_tcs(c, cs, sh, pts, ops, label, text):
+    """to_compartmental_system(names, eqs) must have the same vector field (rhs including inputs)."""
+    if not sh.comps:
+        return
+    msg, detail, nhit = tcs_field(cs, sh, pts)
+    c.hit("tcs_vector_field", max(nhit, 1))
+    if msg is None:
+        return
+    key = None
+    so = [i for i, op in enumerate(ops) if op["op"] == "add_flow" and op["rate"][0] == "so"
+          and sh.edges.get((op["src"], op["dst"])) == op["rate"]]
+    if so:
+        # delta check: the same history with the second-order rate replaced by a plain positive symbol
+        ops2 = [dict(op) for op in ops]
+        for i in so:
+            ops2[i]["rate"] = ["sym", "KDELTA%d" % i]
+            ops2[i]["as"] = "str"
+        res = execute(ops2)
+        if res is not None:
+            env_pts = [(dict(e1, **{"KDELTA%d" % i: 1.3 for i in so}), dict(e2, **{"KDELTA%d" % i: 1.3 for i in so}), f)
+                       for e1, e2, f in pts]
+            try:
+                if tcs_field(res[1], res[0].sh, env_pts)[0] is None:
+                    key = KEY_TCS_SO
+            except Exception:
+                pass
+    detail = dict(detail or {})
+    detail.update({"ops": text, "system": sh.describe()})
+    c.violate(key, f"[{label}] {msg}", detail)
 
 
 def _eq_delta_ok(ops):
@@ -717,7 +753,7 @@ def run_case(rng, idx, tier):
             c.hit("stratum:upstream_or_disconnected")
         check_attrs(c, cs, sh, pts, "final", text)
         check_accessors(c, cs, sh, pts, run.h, "final", text)
-        check_tcs(c, cs, sh, pts[:4], "final", text)
+        check_tcs(c, cs, sh, pts[:4], ops, "final", text)
         check_roundtrip(c, cs, sh, pts, ops, "final", text)
         check_subs(c, rng, cs, sh, symbols, "final", text)
     # systems built in the middle of the history are unaffected by the later builder calls
